@@ -78,7 +78,7 @@ func vfGoroutines() []vfG {
 	return out
 }
 
-func vfParked(state string) bool {
+func vfIsParkedState(state string) bool {
 	switch state {
 	case "chan receive", "chan send", "select", "sync.Mutex.Lock", "sync.RWMutex.RLock", "sync.RWMutex.Lock",
 		"sync.Cond.Wait", "sync.WaitGroup.Wait", "semacquire", "chan receive (nil chan)", "chan send (nil chan)", "select (no cases)":
@@ -105,7 +105,7 @@ func vfQuiescent() (bool, []vfG) {
 			continue
 		}
 		rel = append(rel, g)
-		if !vfParked(g.State) {
+		if !vfIsParkedState(g.State) {
 			return false, rel
 		}
 	}
@@ -200,7 +200,7 @@ func vfCheckNoLeak(ctx *vfCtx, key string, baseline map[int]bool) {
 		for _, g := range vfGoroutines() {
 			if g.PkgOwned && !baseline[g.ID] {
 				left = append(left, g)
-				if !vfParked(g.State) {
+				if !vfIsParkedState(g.State) {
 					allParked = false
 				}
 			}
@@ -287,17 +287,17 @@ func vfOpenFDsBelow(root string) []string {
 // ---- tree snapshot --------------------------------------------------------------
 
 type vfTreeEntry struct {
-	Path   string
-	Kind   string
-	Mode   uint32 // permission + setuid/setgid/sticky (os.FileMode bits)
-	Size   int64
-	Sum    string
-	Link   string
-	Inode  string // hard-link class
-	Mtime  int64
-	UID    uint32
-	GID    uint32
-	Nlink  uint64
+	Path  string
+	Kind  string
+	Mode  uint32 // permission + setuid/setgid/sticky (os.FileMode bits)
+	Size  int64
+	Sum   string
+	Link  string
+	Inode string // hard-link class
+	Mtime int64
+	UID   uint32
+	GID   uint32
+	Nlink uint64
 }
 
 // vfSnapshot walks root with Lstat and returns a canonical description. Link
